@@ -123,10 +123,17 @@ def compare(a, b, kind, U, stage):
                 raise Violation(f"{stage}: query({k!r}) differs: {qa} vs {qb}", "query-differs")
     elif kind == "hh":
         mkl = int(a.max_key_len)
+        if none_threshold_ok(a):
+            for kq in (1, 2, 3):
+                la = [(k, int(c)) for k, c in sut(a.query, kq)]
+                lb = [(k, int(c)) for k, c in sut(b.query, kq)]
+                if la != lb:
+                    raise Violation(f"{stage}: query({kq}) differs: {la} vs {lb}", "query-differs")
         for k in U:
             if len(k) <= mkl and int(sut(a.__getitem__, k)) != int(sut(b.__getitem__, k)):
                 raise Violation(f"{stage}: hh[{k!r}] differs", "query-differs")
-        for t in [0, 1] + ([None] if none_threshold_ok(a) else []):
+        # the default-threshold query comes first: it is the one answered from the candidate set that load() built
+        for t in ([None] if none_threshold_ok(a) else []) + [0, 1]:
             qa = sorted((k, int(c)) for k, c in sut(a.query, 10**9, t))
             qb = sorted((k, int(c)) for k, c in sut(b.query, 10**9, t))
             if qa != qb:
@@ -291,14 +298,67 @@ def _phi_grid(arg):
     return rec
 
 
+def _hh_ties_task(arg):
+    """Heavy hitters with many tied counts and eroded cells (unit adds of a 5-key alphabet into width 2..5, depth 2..3):
+    the very first default-threshold query(k) of the loaded copy must equal the original's, k = 1..4."""
+    import random
+
+    seed, n = arg
+    rec = common.Recorder()
+    r = random.Random(seed)
+    tmp = tempfile.mkdtemp(prefix="vf_c10t_")
+    keys = [b"a", b"b", b"c", b"d", b"e", b"a\0"]
+    try:
+        for t in range(n):
+            w, d = r.randint(2, 5), r.randint(2, 3)
+            stream = [r.choice(keys) for _ in range(r.randint(4, 16))]
+            sk = HeavyHitters(w, d, 4)
+            for k in stream:
+                sk.add(k)
+            path = os.path.join(tmp, "t.npz")
+            sk.save(path)
+            case = {"hh_ties": True, "width": w, "depth": d, "stream": stream}
+            try:
+                cp = sut(HeavyHitters.load, path)
+                for kq in (1, 2, 3, 4):
+                    la = [(k, int(c)) for k, c in sut(sk.query, kq)]
+                    lb = [(k, int(c)) for k, c in sut(cp.query, kq)]
+                    if la != lb:
+                        raise Violation(f"HeavyHitters({w},{d},4) after {len(stream)} unit adds: query({kq}) of the original is {la}, of the freshly loaded copy {lb}", "query-differs")
+                compare(sk, cp, "hh", keys, "tied-counts stream")
+            except Violation as v:
+                rec.violation(case, v.msg, v.signature)
+                return rec
+            counts = sorted(int(c) for _, c in sk.query(10**9, 0))
+            rec.case(case, len(counts) != len(set(counts)), ["hh_tie_streams"])
+    finally:
+        shutil.rmtree(tmp, ignore_errors=True)
+    return rec
+
+
 def run(tier, seed, rec):
     cross_type(rec)
+    common.pool_merge(_hh_ties_task, [(common.derive_seed(seed, "C10-ties", i), 250 if tier == "quick" else 4000) for i in range(16)], rec)
     common.pool_merge(_phi_grid, [(lo, lo + 25) for lo in range(1, 251 if tier == "quick" else 1001, 25)], rec)
     total, shards = (2400, 16) if tier == "quick" else (40000, 32)
     common.pool_merge(_shard, [(seed, i, total // shards) for i in range(shards)], rec)
 
 
 def replay(case):
+    if case.get("hh_ties"):
+        sk = HeavyHitters(case["width"], case["depth"], 4)
+        for k in case["stream"]:
+            sk.add(k)
+        d = tempfile.mkdtemp(prefix="vf_c10t_")
+        try:
+            sk.save(os.path.join(d, "t.npz"))
+            cp = HeavyHitters.load(os.path.join(d, "t.npz"))
+            for kq in (1, 2, 3, 4):
+                if [(k, int(c)) for k, c in sk.query(kq)] != [(k, int(c)) for k, c in cp.query(kq)]:
+                    raise Violation(f"query({kq}) differs between the original and the loaded copy", "query-differs")
+        finally:
+            shutil.rmtree(d, ignore_errors=True)
+        return
     if case.get("phi_grid"):
         r = _phi_grid((case["width"], case["width"] + 1))
         if r.violations:
